@@ -1257,6 +1257,30 @@ func storeReplay(args []string) {
 		}
 		res.Executed++
 		res.Count("op_"+last.Op, 1)
+		// which regime of the documented semantics this edge exercises (read off the spec's source state)
+		if (last.Op == "SetMember" || last.Op == "DeleteMember") && last.H >= 1 && last.H <= len(from.Bags) {
+			qk := last.K
+			if last.Op == "SetMember" {
+				if key, err := concretize(last.Arg.Ks, 0); err == nil {
+					qk = quote(key)
+				}
+			}
+			held, tk := false, !strings.Contains(qk, "{")
+			for _, m := range from.Bags[last.H-1] {
+				held = held || m.K == qk
+			}
+			cls := map[bool]string{true: "token", false: "nontoken"}[tk]
+			switch {
+			case last.Op == "SetMember" && held:
+				res.Count("store_replace_"+cls+"_key", 1)
+			case last.Op == "SetMember":
+				res.Count("store_add_"+cls+"_key", 1)
+			case held:
+				res.Count("store_delete_"+cls+"_present", 1)
+			default:
+				res.Count("store_delete_"+cls+"_absent", 1)
+			}
+		}
 		if p != nil {
 			res.AddMismatch(vh.Mismatch{Kind: "panic", Case: cse, Path: ops[:len(ops)-1], Act: last, Detail: fmt.Sprint(p)})
 			continue
@@ -1386,6 +1410,51 @@ func (g *gen) arg(tokenKeys bool) concArg {
 			p.v = g.value()
 		}
 		c.props = append(c.props, p)
+	}
+	return c
+}
+
+// keys the Raw constructors accept although they are not W3C tokens (every same-class run <= 16 bytes, so
+// that the lexer keeps their text)
+var nonTokenKeys = []string{"ключ", "é", "k k", "a,b=c", "naïve", "k;p", "\"q\"", "键", "k\tk", "😀", "%zz k"}
+
+func (g *gen) storeKey(n int) string {
+	if g.r.Intn(3) == 0 {
+		return g.pick(nonTokenKeys)
+	}
+	return g.token(1 + g.r.Intn(n))
+}
+
+// storeArg: a member for the edit scenarios: token and non-token keys (member and properties), any UTF-8 values
+func (g *gen) storeArg() concArg {
+	c := g.arg(true)
+	c.key = g.storeKey(4)
+	for i := range c.props {
+		c.props[i].k = g.storeKey(3)
+	}
+	return c
+}
+
+// variant: the member `prev` with exactly one aspect changed (or none)
+func (g *gen) variant(prev concArg) concArg {
+	c := concArg{key: prev.key, val: prev.val}
+	c.props = append(c.props, prev.props...)
+	switch k := g.r.Intn(5); {
+	case k == 0:
+		c.val = g.value()
+		g.res.Count("scn_replace_value", 1)
+	case k == 1:
+		c.props = g.storeArg().props
+		g.res.Count("scn_replace_properties", 1)
+	case k == 2 && len(c.props) > 0:
+		i := g.r.Intn(len(c.props))
+		c.props[i].v, c.props[i].hv = g.value(), true
+		g.res.Count("scn_replace_property_value_only", 1)
+	case k == 3:
+		g.res.Count("scn_replace_identical", 1)
+	default:
+		c.val, c.props = g.value(), nil
+		g.res.Count("scn_replace_value_drop_properties", 1)
 	}
 	return c
 }
@@ -1572,6 +1641,7 @@ func (g *gen) scenario(tw *vh.TraceWriter, rep int) (panicked any, at any) {
 	tw.Emit(map[string]any{"ev": "Reset"})
 	st := newStore(rep)
 	keys := []string{"k", "K"}
+	last := map[string]concArg{}
 	steps := g.oneOf(4, 8, 12, 20)
 	big := g.r.Intn(12) == 0 // a baggage at the member limit, then edits beyond it
 	for i := 0; i < steps; i++ {
@@ -1590,13 +1660,18 @@ func (g *gen) scenario(tw *vh.TraceWriter, rep int) (panicked any, at any) {
 			a = storeAct{Op: "New"}
 			g.res.Count("scn_big_baggage", 1)
 		case k <= 3:
-			ca := g.arg(true)
-			if g.r.Intn(3) == 0 {
-				ca.key = keys[g.r.Intn(len(keys))]
+			ca := g.storeArg()
+			if prev, ok := last[keys[g.r.Intn(len(keys))]]; ok && g.r.Intn(2) == 0 {
+				// REPLACE a key set before: another value / other properties / one property value only / identical
+				ca = g.variant(prev)
 			}
 			keys = append(keys, ca.key)
+			last[ca.key] = ca
 			conc.args = []concArg{ca}
 			a = storeAct{Op: "SetMember", H: h}
+			if !isToken(ca.key) {
+				g.res.Count("scn_setmember_nontoken_key", 1)
+			}
 		case k == 4:
 			a = storeAct{Op: "SetZero", H: h}
 		case k <= 6:
@@ -1608,8 +1683,9 @@ func (g *gen) scenario(tw *vh.TraceWriter, rep int) (panicked any, at any) {
 		case k == 7:
 			n := g.oneOf(0, 1, 2, 3)
 			for j := 0; j < n; j++ {
-				ca := g.arg(true)
+				ca := g.storeArg()
 				keys = append(keys, ca.key)
+				last[ca.key] = ca
 				conc.args = append(conc.args, ca)
 			}
 			a = storeAct{Op: "New"}
